@@ -1,12 +1,31 @@
 """Facts for C07 (Bitcoin framer + MessageSession error policy), regenerated from the current
-tree on every run.  Everything is a *semantic normal form*: struct layouts are read from the
-live `Struct` objects, the size/magic decisions are tabulated by running the real
-`_receive_header` on a small grid of headers, the `except` ladder of
-`MessageSession._process_messages_loop` is resolved against the live exception classes."""
-import ast
+tree on every run.
+
+Everything here is *behavioural*: the real classes are RUN through their public surface
+(`BitcoinFramer(magic=, max_block_size=)`, `max_payload_size`, `frame`, `received_bytes`,
+`receive_message`, the three exception classes, `MessageSession` on a fake transport) over small
+grids, and what they did is written down as tables; `Props.lean` proves that the model
+reproduces every row.  No private name (`_pad_command`, `_unpack`, `_build_header`, `_checksum`,
+`_receive_header`, `_bump_errors`, ...), no struct format string and no source shape is read; the
+`ast` module is used for the fingerprints only (they merely select the exploration depth).
+
+  sizeFirst   which error a header with wrong magic AND over-limit length raises
+  frameTable  frame((cmd, payload)) for commands of 0..14 bytes (leading / embedded / trailing
+              NUL), several payload sizes and magics, long commands before short ones on ONE
+              framer instance; fake-length payloads probe the 2^32 boundary of the length field
+  recvGrid    successive receive_message() outcomes on ~580 one-item streams (every raw command
+              field variant x every declared length 0..limit+2 x 3 limit configurations, good
+              and bad checksum, truncated; every single-bit corruption of the magic, also
+              combined with an over-limit length), followed by a tail message
+  sessTable   a MessageSession fed every sequence of <= 3 items of the kinds valid / bad
+              checksum / bad magic / oversize (+ a final valid message), with the transport
+              reporting the loss at once / after 2.5 ms / never: errors, close requested?,
+              messages that reached handle_message
+"""
+import asyncio
 import hashlib
-import re
-import struct
+import itertools
+import logging
 
 from . import common
 
@@ -14,275 +33,299 @@ FRAMING = 'aiorpcx/framing.py'
 SESSION = 'aiorpcx/session.py'
 GRID_MAGIC = bytes.fromhex('a1b2c3d4')
 GRID_CFGS = [(5, 9), (9, 5), (0, 3)]            # (max_payload_size, max_block_size)
-GRID_CMDS = [b'block', b'blocks', b'bloc', b'', b'Block', b'block\0\0']
+# raw 12-byte command fields: plain, prefix / extension of b'block', empty, case, NUL in front /
+# inside / NUL then a byte at the very end, no NUL at all
+GRID_FIELDS = [b'block', b'blocks', b'bloc', b'', b'Block', b'\0block', b'blo\0ck',
+               b'block\0\0\0\0\0\0x', b'blockblockbl', b'x']
+CODE = {'BadMagicError': 1, 'OversizedPayloadError': 2, 'BadChecksumError': 3}
+G_NEVER = 1000000
 
 
-def _fmt_items(fmt):
-    """'<4s12sI4s' -> ('<', [(4,'s'),(12,'s'),(1,'I'),(4,'s')])"""
-    order = fmt[0] if fmt and fmt[0] in '@=<>!' else '@'
-    body = fmt[1:] if fmt and fmt[0] in '@=<>!' else fmt
-    items = [(int(n) if n else 1, c) for n, c in re.findall(r'(\d*)([a-zA-Z?])', body)]
-    return order, items
+def dsha4(p):
+    return hashlib.sha256(hashlib.sha256(p).digest()).digest()[:4]
 
 
-def _drive(coro):
-    """Run a coroutine on the virtual loop; a coroutine that would wait forever is reported as
-    the string 'blocked' (never waits in real time)."""
+def mk_header(magic, field, n, ck):
+    return magic + field.ljust(12, b'\0') + n.to_bytes(4, 'little') + ck
+
+
+def mk_frame(magic, field, payload):
+    return mk_header(magic, field, len(payload), dsha4(payload)) + payload
+
+
+def _run(coro):
     from harness import vloop
-    try:
-        return vloop.run(coro)
-    except (vloop.Deadlock, vloop.Livelock):
-        return 'blocked'
+    return vloop.run(coro)
 
 
-def _header_outcome(framing, mp, mb, header):
-    """0 returned, 1 BadMagicError, 2 OversizedPayloadError, 4 would block, 5 anything else"""
-    async def go():
-        cls = type('GridFramer', (framing.BitcoinFramer,), {'max_payload_size': mp})
-        fr = cls(magic=GRID_MAGIC, max_block_size=mb)
-        fr.received_bytes(header)
-        try:
-            await fr._receive_header()
-            return 0
-        except framing.BadMagicError:
-            return 1
-        except framing.OversizedPayloadError:
-            return 2
-    try:
-        r = _drive(go())
-    except Exception:
-        return 5
-    return 4 if r == 'blocked' else r
-
-
-def _names(node):
-    if node is None:
-        return ['BaseException']
-    if isinstance(node, ast.Tuple):
-        return [n for e in node.elts for n in _names(e)]
-    if isinstance(node, ast.Name):
-        return [node.id]
-    if isinstance(node, ast.Attribute):
-        return [node.attr]
-    return ['?']
-
-
-def _is_close_ref(n):
-    return isinstance(n, ast.Attribute) and n.attr == 'close'
-
-
-def _handler_facts(body):
-    bumps, closes, leaves = 0, 0, 0
-    for st in body:
-        for n in ast.walk(st):
-            if isinstance(n, ast.Call) and isinstance(n.func, ast.Attribute):
-                if n.func.attr == '_bump_errors':
-                    bumps += 1
-                elif n.func.attr == 'close':
-                    closes += 1
-                elif n.func.attr == 'spawn' and any(
-                        _is_close_ref(a) or (isinstance(a, ast.Call) and _is_close_ref(a.func))
-                        for a in n.args):
-                    closes += 1
-            if isinstance(n, (ast.Break, ast.Return, ast.Raise)):
-                leaves += 1
-    return bumps, closes, leaves
-
-
-def _ladder(repo, framing, session):
-    tree = common.parse(repo, SESSION)
-    fn = common.find(tree, 'MessageSession._process_messages_loop')
-    out = {'found': False}
-    if fn is None:
-        return out
-    loops = [n for n in ast.walk(fn) if isinstance(n, ast.While)]
-    trys = [n for n in ast.walk(fn) if isinstance(n, ast.Try)
-            and any(isinstance(c, ast.Call) and isinstance(c.func, ast.Name)
-                    and c.func.id == 'recv_message' for s in n.body for c in ast.walk(s))]
-    if len(trys) != 1:
-        return out
-    t = trys[0]
-    out['found'] = True
-    out['loop_forever'] = any(
-        isinstance(l.test, ast.Constant) and l.test.value is True and t in list(ast.walk(l))
-        for l in loops)
-    ns = vars(session)
-    resolved = []
-    for h in t.handlers:
-        classes = [ns.get(n) for n in _names(h.type)]
-        resolved.append([c for c in classes if isinstance(c, type)])
-    arms = {}
-    for key, cls in (('badMagic', framing.BadMagicError),
-                     ('oversized', framing.OversizedPayloadError),
-                     ('badChecksum', framing.BadChecksumError)):
-        idx = next((i for i, cs in enumerate(resolved) if any(issubclass(cls, c) for c in cs)),
-                   None)
-        if idx is None:
-            arms[key] = {'handler': -1, 'bumps': 0, 'closes': 0, 'leaves': 0, 'unpack': -1}
+def _enc(out):
+    """outcome -> (code, cmd, payload); 0 delivered, 1/2/3 the three errors, 9 anything else"""
+    res = []
+    for o in out:
+        if o[0] == 'M':
+            res.append((0, list(o[1]), list(o[2])))
+        elif o[0] == 'E':
+            res.append((CODE[o[1]], [], []))
         else:
-            b, c, l = _handler_facts(t.handlers[idx].body)
-            arms[key] = {'handler': idx, 'bumps': b, 'closes': c, 'leaves': l,
-                         'unpack': _unpack_arity(t.handlers[idx])}
-    out['arms'] = arms
-    out['catches_generic'] = any(issubclass(Exception, c) for cs in resolved for c in cs)
-    # else branch: the received message is handed to _throttled_message / handle_message
-    eb, ec, el = _handler_facts(t.orelse)
-    spawned = [n for s in t.orelse for n in ast.walk(s)
-               if isinstance(n, ast.Call) and isinstance(n.func, ast.Attribute)
-               and n.func.attr == '_throttled_message']
-    out['else'] = {'bumps': eb, 'closes': ec, 'leaves': el, 'throttled_calls': len(spawned)}
-    tm = common.find(tree, 'MessageSession._throttled_message')
-    out['throttled_calls_handle_message'] = sum(
-        1 for n in ast.walk(tm) if isinstance(n, ast.Call) and isinstance(n.func, ast.Attribute)
-        and n.func.attr == 'handle_message') if tm is not None else 0
+            res.append((9, [], []))
+    return res
+
+
+def _payload_candidates(stream):
+    """every byte string the decoder could be asked to checksum on this stream, whatever it
+    decides at each header (both continuations are followed)"""
+    out, seen, todo = set(), set(), [0]
+    while todo:
+        pos = todo.pop()
+        if pos in seen or len(stream) - pos < 24:
+            continue
+        seen.add(pos)
+        n = int.from_bytes(stream[pos + 16:pos + 20], 'little')
+        todo.append(pos + 24)
+        if len(stream) - pos - 24 >= n:
+            out.add(stream[pos + 24:pos + 24 + n])
+            todo.append(pos + 24 + n)
     return out
 
 
-def _raise_arities(repo):
-    """number of positional arguments at each `raise <Class>(...)` site in framing.py"""
-    tree = common.parse(repo, FRAMING)
-    out = {}
-    for n in ast.walk(tree):
-        if isinstance(n, ast.Raise) and isinstance(n.exc, ast.Call) and isinstance(n.exc.func, ast.Name):
-            out.setdefault(n.exc.func.id, set()).add(len(n.exc.args))
-    return {k: sorted(v) for k, v in out.items()}
-
-
-def _unpack_arity(handler):
-    """length of the tuple `e.args` is unpacked into inside the handler (-1: not unpacked)"""
-    name = handler.name
-    for st in handler.body:
-        for n in ast.walk(st):
-            if isinstance(n, ast.Assign) and isinstance(n.value, ast.Attribute) and n.value.attr == 'args' \
-                    and isinstance(n.value.value, ast.Name) and n.value.value.id == name \
-                    and len(n.targets) == 1 and isinstance(n.targets[0], (ast.Tuple, ast.List)):
-                return len(n.targets[0].elts)
-    return -1
-
-
-def _bump_increment(session):
-    class Stub:
-        errors = 0
-        error_base_cost = session.SessionBase.error_base_cost
-        delta = None
-
-        def bump_cost(self, d):
-            self.delta = d
-    s = Stub()
-    session.SessionBase._bump_errors(s, None)
-    return s.errors
-
-
-def extract(repo):
-    framing = common.fresh_import(repo, 'aiorpcx.framing')
-    session = common.fresh_import(repo, 'aiorpcx.session')
-    tree = common.parse(repo, FRAMING)
-    fr = framing.BitcoinFramer()
-    unpack_fmt = fr._unpack.__self__.format
-    order, items = _fmt_items(unpack_fmt)
-    pack_fmt = framing.pack_le_uint32.__self__.format
-
-    def pack_ok(n):
-        try:
-            framing.pack_le_uint32(n)
-            return True
-        except struct.error:
-            return False
-    pack_max_ok = max([n for k in range(0, 70) for n in (2 ** k - 1, 2 ** k) if pack_ok(n)],
-                      default=0)
-    pack_first_bad = min([n for k in range(0, 70) for n in (2 ** k - 1, 2 ** k) if not pack_ok(n)],
-                         default=0)
-
-    def pad(c):
-        try:
-            return fr._pad_command(c)
-        except ValueError:
-            return 'ValueError'
-    pad_ok = [n for n in range(0, 40) if pad(b'x' * n) != 'ValueError']
-    pad_sample = pad(b'ab')
-    samples = [b'', b'a', b'hello world', bytes(range(256))]
-    ck_is_dsha = all(fr._checksum(p) == hashlib.sha256(hashlib.sha256(p).digest()).digest()[:4]
-                     for p in samples)
-    ck_len = sorted({len(fr._checksum(p)) for p in samples})
-    # literals of _receive_header
-    rh = common.find(tree, 'BitcoinFramer._receive_header')
-    rstrip_args, bytes_literals, recv_sizes = [], [], []
-    if rh is not None:
-        for n in ast.walk(rh):
-            if isinstance(n, ast.Call) and isinstance(n.func, ast.Attribute):
-                if n.func.attr == 'rstrip':
-                    rstrip_args += [list(a.value) for a in n.args
-                                    if isinstance(a, ast.Constant) and isinstance(a.value, bytes)]
-                if n.func.attr == 'receive':
-                    recv_sizes += [a.value for a in n.args if isinstance(a, ast.Constant)]
-            if isinstance(n, ast.Compare):
-                for c in [n.left] + n.comparators:
-                    if isinstance(c, ast.Constant) and isinstance(c.value, bytes):
-                        bytes_literals.append(list(c.value))
-    # decision grid of the real _receive_header
-    grid = []
+def recv_streams():
+    rows = []
+    tail = mk_frame(GRID_MAGIC, b'tl', b'\x07')
     for mp, mb in GRID_CFGS:
         top = max(mp, mb) + 2
-        for cmd in GRID_CMDS:
+        for field in GRID_FIELDS:
             for n in range(0, top + 1):
-                h = GRID_MAGIC + cmd.ljust(12, b'\0') + n.to_bytes(4, 'little') + b'\x11\x22\x33\x44'
-                grid.append((mp, mb, list(h), _header_outcome(framing, mp, mb, h)))
-        # wrong magic, with and without an over-limit length (order of the two tests)
+                payload = bytes((3 * i + n + 1) % 256 for i in range(n))
+                rows.append((mp, mb, mk_frame(GRID_MAGIC, field, payload) + tail))
+        for field in (b'block', b'x'):
+            for n in (0, 1, mp, mb):
+                payload = bytes((5 * i + n + 2) % 256 for i in range(n))
+                ck = bytes([dsha4(payload)[0] ^ 1]) + dsha4(payload)[1:]
+                rows.append((mp, mb, mk_header(GRID_MAGIC, field, n, ck) + payload + tail))
+                # truncated: one byte short of the declared payload; header alone; 23 bytes
+                rows.append((mp, mb, (mk_frame(GRID_MAGIC, field, payload + b'\x09'))[:-1]))
+        rows.append((mp, mb, mk_frame(GRID_MAGIC, b'x', b'')[:23]))
+        # declared lengths far beyond the limits (all 32 bits of the field count, unsigned)
+        for field in (b'block', b'x'):
+            for n in (255, 256, 65536, 2 ** 31 - 1, 2 ** 31, 2 ** 32 - 1):
+                rows.append((mp, mb, mk_header(GRID_MAGIC, field, n, bytes(4)) + tail))
+        # wrong magic, alone and together with an over-limit length (order of the two tests)
         for bit in range(32):
             m = bytearray(GRID_MAGIC)
             m[bit // 8] ^= 1 << (bit % 8)
             for n in (0, top):
-                h = bytes(m) + b'block'.ljust(12, b'\0') + n.to_bytes(4, 'little') + bytes(4)
-                grid.append((mp, mb, list(h), _header_outcome(framing, mp, mb, h)))
-    # a header built by the real code, field by field
-    gf = framing.BitcoinFramer(magic=GRID_MAGIC)
-    sample_payload = b'\x01\x02\x03'
-    sample_header = gf._build_header(b'ver', sample_payload)
-    sample_ck = gf._checksum(sample_payload)
-    classes = {'badMagic': framing.BadMagicError, 'oversized': framing.OversizedPayloadError,
-               'badChecksum': framing.BadChecksumError}
+                rows.append((mp, mb, mk_header(bytes(m), b'block', n, dsha4(b'')) + tail))
+    return rows
+
+
+def _frame_calls():
+    """(magic, [(cmd, payload), ...]) - the calls are made in this order on ONE framer per magic
+    (a long command directly before a shorter one)"""
+    cmds = [b'', b'a', b'ab', b'version', b'getheaders', b'123456789012', b'ab', b'1234567890123',
+            b'12345678901234', b'\0', b'\0a', b'a\0', b'a\0b', b'ab\0\0', b'\0' * 12, b'x' * 11 + b'\0',
+            b'\0' * 13, b'block', b'']
+    payloads = [b'', b'\x01', b'\x01\x02\x03', bytes(range(256)) + b'\x00\x01']
+    calls = []
+    for i, c in enumerate(cmds):
+        calls.append((c, payloads[i % len(payloads)]))
+    calls.append((b'verack', b''))
+    calls.append((b'tx', bytes(70)))
+    return [(GRID_MAGIC, calls), (b'abc', calls[:6]), (b'', calls[:3]), (b'12345', calls[:3])]
+
+
+class FakeLen(bytes):
+    """bytes whose len() lies: lets frame() be asked for a 4 GiB payload without having one"""
+    fake = 0
+
+    def __len__(self):
+        return self.fake
+
+
+def _exc_code(e):
+    if isinstance(e, ValueError):
+        return 1
+    if type(e).__name__ == 'error' and type(e).__module__ in ('struct', '_struct'):
+        return 2
+    return 3
+
+
+def frame_table(framing):
+    rows = []
+    for magic, calls in _frame_calls():
+        fr = framing.BitcoinFramer(magic=magic)
+        for cmd, payload in calls:
+            try:
+                rows.append((magic, cmd, payload, 0, bytes(fr.frame((cmd, payload)))))
+            except Exception as e:      # noqa
+                rows.append((magic, cmd, payload, _exc_code(e), b''))
+    return rows
+
+
+def pack_probe(framing):
+    """(n, code, frame bytes) for payloads that claim len() == n; [] when frame() does not take
+    the length from len() (then the 2^32 boundary cannot be probed without 4 GiB of data)"""
+    fr = framing.BitcoinFramer(magic=GRID_MAGIC)
+
+    def call(n):
+        p = FakeLen(b'')
+        p.fake = n
+        try:
+            return 0, bytes(fr.frame((b'p', p)))
+        except Exception as e:      # noqa
+            return _exc_code(e), b''
+    code, b = call(0x04030201)
+    if code != 0 or b[16:20] != bytes([1, 2, 3, 4]):
+        return []
+    rows = []
+    for k in (8, 16, 24, 31, 32, 33, 40):
+        for n in (2 ** k - 1, 2 ** k):
+            code, b = call(n)
+            rows.append((n, code, b))
+    return rows
+
+
+SESS_LIMITS = (4, 4)
+LATE = 0.0025
+PROBE_FATALS = 40
+
+
+def _sess_items():
     return {
-        'unpack_format': unpack_fmt,
-        'unpack_order': order,
-        'unpack_items': items,
-        'unpack_item_sizes': [struct.calcsize(order + (str(n) if c == 's' else '') + c) * (1 if c == 's' else n)
-                              for n, c in items],
-        'unpack_size': fr._unpack.__self__.size,
-        'pack_format': pack_fmt,
-        'pack_max_ok': pack_max_ok,
-        'pack_first_bad': pack_first_bad,
-        'pack_sample': list(framing.pack_le_uint32(0x04030201)),
-        'default_magic': list(fr._magic),
-        'max_payload_size': framing.BitcoinFramer.max_payload_size,
-        'max_block_size': fr._max_block_size,
-        'pad_ok_lengths': pad_ok,
-        'pad_sample': list(pad_sample) if pad_sample != 'ValueError' else [],
-        'checksum_is_double_sha256_4': ck_is_dsha,
-        'checksum_lengths': ck_len,
-        'rstrip_args': rstrip_args,
-        'compare_literals': bytes_literals,
-        'header_receive_sizes': recv_sizes,
+        'm': lambda i: mk_frame(GRID_MAGIC, b'm%d' % i, bytes([i, i])),
+        'c': lambda i: mk_header(GRID_MAGIC, b'c%d' % i, 1, bytes(4)) + b'\x55',
+        # (commands that are not valid UTF-8 / ASCII: the handlers must cope with any bytes)
+        'g': lambda i: mk_header(b'\xa1\xb2\xc3\xd5', b'g\xff%d' % i, 0, dsha4(b'')),
+        's': lambda i: mk_header(GRID_MAGIC, b'\xfes%d' % i, 5, bytes(4)),
+    }
+
+
+def grace_probe_stream():
+    """PROBE_FATALS bad-magic headers and a valid message: how many of them does a session count
+    before the transport has reported the loss?"""
+    items = _sess_items()
+    return b''.join(items['g'](i % 10) for i in range(PROBE_FATALS)) + mk_frame(GRID_MAGIC, b'end', b'')
+
+
+def session_streams(g_soon, g_late):
+    """(mp, mb, lose, g, stream); items keep the framer in sync (no payload behind a rejected
+    header)"""
+    mp, mb = SESS_LIMITS
+    items = _sess_items()
+    seqs = [''.join(t) for k in (1, 2, 3) for t in itertools.product('mcgs', repeat=k)]
+    seqs += ['gggg', 'sgsgs', 'mgmsmgm', 'ssssss']
+    rows = []
+    for seq in seqs:
+        stream = b''.join(items[k](i) for i, k in enumerate(seq)) + mk_frame(GRID_MAGIC, b'end', b'')
+        for lose, g in ((0, g_soon), (LATE, g_late), (None, G_NEVER)):
+            rows.append((mp, mb, lose, g, stream))
+    return rows
+
+
+def extract(repo):
+    from harness import c07_fake
+    logging.disable(logging.CRITICAL)
+    framing = common.fresh_import(repo, 'aiorpcx.framing')
+    session = common.fresh_import(repo, 'aiorpcx.session')
+    rawsocket = common.fresh_import(repo, 'aiorpcx.rawsocket')
+    mods = (framing, session, rawsocket)
+
+    # ---- defaults of BitcoinFramer(): the magic is what frame() puts in front; the two limits
+    # are found by bisection on the declared length the default framer still accepts
+    fr = framing.BitcoinFramer()
+    empty = bytes(fr.frame((b'', b'')))
+    default_magic = empty[:-20] if len(empty) >= 20 else b''
+
+    async def accepts(cmd, n):
+        out = await c07_fake.recv_outcomes(
+            framing, framing.BitcoinFramer(), [mk_header(default_magic, cmd, n, dsha4(b''))])
+        return not (out and out[0] == ('E', 'OversizedPayloadError'))
+
+    async def threshold(cmd):
+        """largest declared length accepted for `cmd` (acceptance is downward closed)"""
+        if not await accepts(cmd, 0):
+            return 0
+        lo, hi = 0, 2 ** 32 - 1
+        if await accepts(cmd, hi):
+            return hi
+        while hi - lo > 1:
+            mid = (lo + hi) // 2
+            if await accepts(cmd, mid):
+                lo = mid
+            else:
+                hi = mid
+        return lo
+
+    async def probes():
+        if not await c07_fake.limit_takes_effect(framing):
+            raise c07_fake.ProbeError('setting max_payload_size on a BitcoinFramer instance '
+                                      'does not move the limit')
+        # which test wins on a header that fails both
+        both = mk_header(b'\xa1\xb2\xc3\xd5', b'x', 100, bytes(4))
+        o = await c07_fake.recv_outcomes(framing, c07_fake.new_framer(framing, GRID_MAGIC, 5, 9), [both])
+        first = o[0] if o else ('X', 'nothing')
+        grid = []
+        for mp, mb, stream in recv_streams():
+            out = await c07_fake.recv_outcomes(
+                framing, c07_fake.new_framer(framing, GRID_MAGIC, mp, mb), [stream])
+            grid.append((mp, mb, stream, _enc(out)))
+        # how many further magic/size errors the loop processes before a loss that is reported
+        # at once / LATE seconds after close() reaches it (it sleeps a little after each one):
+        # measured, not assumed - the text says nothing about that timing
+        grace = {}
+        for lose in (0, LATE):
+            obs = await c07_fake.sess_observe(
+                mods, c07_fake.new_framer(framing, GRID_MAGIC, *SESS_LIMITS), [grace_probe_stream()],
+                kind='client', lose=lose)
+            grace[lose] = G_NEVER if obs['errors'] >= PROBE_FATALS else max(0, obs['errors'] - 1)
+        sess = []
+        for mp, mb, lose, g, stream in session_streams(grace[0], grace[LATE]):
+            outs = await c07_fake.recv_outcomes(
+                framing, c07_fake.new_framer(framing, GRID_MAGIC, mp, mb), [stream])
+            obs = await c07_fake.sess_observe(
+                mods, c07_fake.new_framer(framing, GRID_MAGIC, mp, mb), [stream],
+                kind='client', lose=lose)
+            sess.append((g, _enc(outs), obs['errors'], obs['closed'],
+                         [(list(c), list(p)) for c, p in obs['delivered']]))
+        _proto, fake, dsess = c07_fake.connect(rawsocket, session.MessageSession, None,
+                                               session.SessionKind.CLIENT, None)
+        dflt = type(dsess.default_framer()).__name__
+        fake.abort()
+        await asyncio.sleep(0.01)
+        return first, grid, sess, grace, await threshold(b'x'), await threshold(b'block'), dflt
+    first, grid, sess, grace, mp_default, mb_default, default_framer = _run(probes())
+
+    ftab = frame_table(framing)
+    pprobe = pack_probe(framing)
+    payloads = set()
+    for _mp, _mb, stream, _o in grid:
+        payloads |= _payload_candidates(stream)
+    for _m, _c, p, _code, _b in ftab:
+        payloads.add(bytes(p))
+    payloads.add(b'')
+    ck_table = sorted((p, dsha4(p)) for p in payloads)
+    classes = {k: getattr(framing, k, None) for k in CODE}
+    return {
+        'size_first': first == ('E', 'OversizedPayloadError'),
+        'both_wrong_outcome': list(first),
+        'default_magic': list(default_magic),
+        'max_payload_size': mp_default if isinstance(mp_default, int) else 0,
+        'max_block_size': mb_default if isinstance(mb_default, int) else 0,
         'grid_magic': list(GRID_MAGIC),
-        'grid': grid,
-        'sample_header': list(sample_header),
-        'sample_frame': list(gf.frame((b'ver', sample_payload))),
-        'raise_arities': _raise_arities(repo),
-        'sample_checksum': list(sample_ck),
-        'sample_payload': list(sample_payload),
-        'ladder': _ladder(repo, framing, session),
-        'errors_per_bump': _bump_increment(session),
+        'ck_table': [(list(p), list(c)) for p, c in ck_table],
+        'recv_grid': [(mp, mb, list(s), o) for mp, mb, s, o in grid],
+        'frame_table': [(list(m), list(c), list(p), code, list(b)) for m, c, p, code, b in ftab],
+        'pack_probe': [(n, code, list(b)) for n, code, b in pprobe],
+        'sess_table': sess,
+        'g_never': G_NEVER,
+        'g_soon': grace[0],
+        'g_late': grace[LATE],
+        'late_delay': LATE,
         'costs': {k: getattr(c, 'cost', None) for k, c in classes.items()},
-        'error_base_cost': session.SessionBase.error_base_cost,
-        'exception_bases': {k: [b.__name__ for b in c.__mro__[1:-1]] for k, c in classes.items()},
-        'default_framer': type(session.MessageSession.default_framer(None)).__name__,
+        'default_framer': default_framer,
+        # whole classes: a drift (also an extracted helper) selects the deeper exploration
         'fingerprints': common.fingerprints(repo, {
-            FRAMING: ['ByteQueue.__init__', 'ByteQueue.receive', 'BinaryFramer.__init__',
-                      'BinaryFramer.frame', 'BinaryFramer.receive_message',
-                      'BitcoinFramer.__init__', 'BitcoinFramer._checksum',
-                      'BitcoinFramer._build_header', 'BitcoinFramer._receive_header',
-                      'double_sha256', 'sha256'],
-            SESSION: ['MessageSession._process_messages_loop', 'MessageSession._throttled_message',
-                      'SessionBase._bump_errors']}),
+            FRAMING: ['ByteQueue', 'BinaryFramer', 'BitcoinFramer', 'double_sha256', 'sha256'],
+            SESSION: ['MessageSession', 'SessionBase._bump_errors']}),
     }
 
 
@@ -290,88 +333,75 @@ def _bool(b):
     return 'true' if b else 'false'
 
 
-def _arm(a):
-    return f'({a["handler"]}, {a["bumps"]}, {a["closes"]}, {a["leaves"]})'
+def _outs(outs):
+    return '[' + ', '.join(f'({k}, {lb(c)}, {lb(p)})' for k, c, p in outs) + ']'
+
+
+def lb(b):
+    """bytes as a Lean term: `bytes! "<hex>"` (Aiorpcx/Common/BytesLit.lean assembles the list
+    literal directly; the ordinary list-literal / numeral elaborators need about a millisecond
+    per byte)"""
+    return f'bytes! "{bytes(b).hex()}"'
 
 
 def render(f):
-    lb = common.lean_bytes
-    items = ', '.join(f"({n}, '{c}')" for n, c in f['unpack_items'])
-    grid = ',\n  '.join(f'({mp}, {mb}, {lb(h)}, {code})' for mp, mb, h, code in f['grid'])
-    lad = f['ladder']
-    arms = lad.get('arms') or {k: {'handler': -1, 'bumps': 0, 'closes': 0, 'leaves': 0, 'unpack': -1}
-                               for k in ('badMagic', 'oversized', 'badChecksum')}
-    els = lad.get('else') or {'bumps': 0, 'closes': 0, 'leaves': 0, 'throttled_calls': 0}
+    cks = ',\n  '.join(f'({lb(p)}, {lb(c)})' for p, c in f['ck_table'])
+    grid = ',\n  '.join(f'({mp}, {mb}, {lb(s)}, {_outs(o)})' for mp, mb, s, o in f['recv_grid'])
+    frames = ',\n  '.join(f'({lb(m)}, {lb(c)}, {lb(p)}, {code}, {lb(b)})'
+                          for m, c, p, code, b in f['frame_table'])
+    packs = ',\n  '.join(f'({n}, {code}, {lb(b)})' for n, code, b in f['pack_probe'])
+    sess = ',\n  '.join(
+        f'({g}, {_outs(o)}, {e}, {_bool(cl)}, [' + ', '.join(f'({lb(c)}, {lb(p)})' for c, p in d) + '])'
+        for g, o, e, cl, d in f['sess_table'])
     costs = f['costs']
     cost_ok = all(isinstance(v, (int, float)) and v == int(v) and v >= 0 for v in costs.values())
-    cost_list = [int(costs[k]) for k in ('badMagic', 'oversized', 'badChecksum')] if cost_ok else []
-    single = lambda xs: xs[0] if len(xs) == 1 else []
-    ar = lambda k: f['raise_arities'].get(k, [])
+    cost_list = [int(costs[k]) for k in ('BadMagicError', 'OversizedPayloadError', 'BadChecksumError')] \
+        if cost_ok else []
     return (
-        '/-! GENERATED by tools/facts/c07.py from /repo on every run - do not edit. -/\n'
+        'import Aiorpcx.Common.BytesLit\n'
+        '/-! GENERATED by tools/facts/c07.py from /repo on every run - do not edit.\n'
+        '    Every table was obtained by RUNNING the real classes through their public API. -/\n'
         'namespace Aiorpcx.Facts.C07\n'
-        f'/-- byte order character of the `Struct` behind `BitcoinFramer()._unpack` -/\n'
-        f"def unpackOrder : Char := '{f['unpack_order']}'\n"
-        f'/-- its items as (repeat count, format code) -/\n'
-        f'def unpackItems : List (Nat × Char) := [{items}]\n'
-        f'/-- bytes occupied by each item -/\n'
-        f'def unpackItemSizes : List Nat := {f["unpack_item_sizes"]}\n'
-        f'def unpackSize : Nat := {f["unpack_size"]}\n'
-        f'/-- sizes passed to `byte_queue.receive(<literal>)` in `_receive_header` -/\n'
-        f'def headerReceiveSizes : List Nat := {[x for x in f["header_receive_sizes"] if isinstance(x, int)]}\n'
-        f'/-- `pack_le_uint32`: format string is `<I` -/\n'
-        f'def packIsLE32 : Bool := {_bool(f["pack_format"] == "<I")}\n'
-        f'/-- largest probed `n` (2^k-1, 2^k) that packs, smallest that raises `struct.error` -/\n'
-        f'def packMaxOk : Nat := {f["pack_max_ok"]}\n'
-        f'def packFirstBad : Nat := {f["pack_first_bad"]}\n'
-        f'/-- `pack_le_uint32(0x04030201)` -/\n'
-        f'def packSample : List UInt8 := {lb(f["pack_sample"])}\n'
+        'set_option maxRecDepth 100000\n'
+        '/-- a header with wrong magic AND an over-limit length raised `OversizedPayloadError`\n'
+        '    (false: `BadMagicError`) -/\n'
+        f'def sizeFirst : Bool := {_bool(f["size_first"])}\n'
+        '/-- `BitcoinFramer().frame((b"", b""))` without its last 20 bytes -/\n'
         f'def defaultMagic : List UInt8 := {lb(f["default_magic"])}\n'
+        '/-- largest declared length `BitcoinFramer()` accepts for an ordinary command / for `block`\n'
+        '    (found by bisection on the running code) -/\n'
         f'def maxPayloadSize : Nat := {f["max_payload_size"]}\n'
         f'def maxBlockSize : Nat := {f["max_block_size"]}\n'
-        f'/-- command lengths `_pad_command` accepts (probed 0..39) -/\n'
-        f'def padOkLengths : List Nat := {f["pad_ok_lengths"]}\n'
-        f'/-- `_pad_command(b"ab")` -/\n'
-        f'def padSample : List UInt8 := {lb(f["pad_sample"])}\n'
-        f'/-- `_checksum(p) == sha256(sha256(p))[:4]` on the probe payloads -/\n'
-        f'def checksumIsDoubleSha4 : Bool := {_bool(f["checksum_is_double_sha256_4"])}\n'
-        f'def checksumLengths : List Nat := {f["checksum_lengths"]}\n'
-        f'/-- the argument of `command.rstrip(..)` -/\n'
-        f'def rstripArg : List UInt8 := {lb(single(f["rstrip_args"]))}\n'
-        f'/-- the bytes literal the command is compared with -/\n'
-        f'def blockLiteral : List UInt8 := {lb(single(f["compare_literals"]))}\n'
         f'def gridMagic : List UInt8 := {lb(f["grid_magic"])}\n'
-        f'/-- (max_payload_size, max_block_size, 24 header bytes, outcome of the real\n'
-        f'    `_receive_header`: 0 returned, 1 BadMagicError, 2 OversizedPayloadError) -/\n'
-        f'def grid : List (Nat × Nat × List UInt8 × Nat) := [\n  {grid}]\n'
-        f'/-- `BitcoinFramer(magic=gridMagic)._build_header(b"ver", samplePayload)` -/\n'
-        f'def sampleHeader : List UInt8 := {lb(f["sample_header"])}\n'
-        f'/-- `BitcoinFramer(magic=gridMagic).frame((b"ver", samplePayload))` -/\n'
-        f'def sampleFrame : List UInt8 := {lb(f["sample_frame"])}\n'
-        f'def samplePayload : List UInt8 := {lb(f["sample_payload"])}\n'
-        f'def sampleChecksum : List UInt8 := {lb(f["sample_checksum"])}\n'
-        f'/-- `MessageSession._process_messages_loop`: the try around `recv_message()` was found,\n'
-        f'    sits in `while True`, and no handler catches plain `Exception` -/\n'
-        f'def ladderFound : Bool := {_bool(lad.get("found"))}\n'
-        f'def loopForever : Bool := {_bool(lad.get("loop_forever"))}\n'
-        f'def catchesGeneric : Bool := {_bool(lad.get("catches_generic"))}\n'
-        f'/-- per raised class: (index of the first handler that catches it or -1, number of\n'
-        f'    `_bump_errors` calls, number of close requests, number of break/return/raise) -/\n'
-        f'def armBadMagic : Int × Nat × Nat × Nat := {_arm(arms["badMagic"])}\n'
-        f'def armOversized : Int × Nat × Nat × Nat := {_arm(arms["oversized"])}\n'
-        f'def armBadChecksum : Int × Nat × Nat × Nat := {_arm(arms["badChecksum"])}\n'
-        f'/-- per class: (numbers of arguments at its `raise` sites in framing.py, length of the\n'
-        f'    tuple the handler unpacks `e.args` into, -1 if it does not) -/\n'
-        f'def argsBadMagic : List Nat × Int := ({ar("BadMagicError")}, {arms["badMagic"].get("unpack", -1)})\n'
-        f'def argsOversized : List Nat × Int := ({ar("OversizedPayloadError")}, {arms["oversized"].get("unpack", -1)})\n'
-        f'def argsBadChecksum : List Nat × Int := ({ar("BadChecksumError")}, {arms["badChecksum"].get("unpack", -1)})\n'
-        f'/-- else branch: (bumps, closes, leaves, calls of `_throttled_message`) -/\n'
-        f'def armElse : Nat × Nat × Nat × Nat := ({els["bumps"]}, {els["closes"]}, {els["leaves"]}, {els["throttled_calls"]})\n'
-        f'def throttledCallsHandleMessage : Nat := {lad.get("throttled_calls_handle_message", 0)}\n'
-        f'/-- `self.errors` after one `_bump_errors` on a fresh object -/\n'
-        f'def errorsPerBump : Nat := {f["errors_per_bump"]}\n'
-        f'/-- `cost` attributes of BadMagicError, OversizedPayloadError, BadChecksumError\n'
-        f'    (parameters; no theorem depends on their values) -/\n'
+        '/-- (payload, first four bytes of its double SHA-256 computed with hashlib) for every byte\n'
+        '    string that can be checksummed on the streams / messages below -/\n'
+        f'noncomputable def ckTable : List (List UInt8 × List UInt8) := [\n  {cks}]\n'
+        '/-- (max_payload_size, max_block_size, stream, outcomes of successive `receive_message()`\n'
+        '    calls of a `BitcoinFramer(magic=gridMagic)` fed the stream); an outcome is\n'
+        '    (0, command, payload) delivered / (1,_,_) BadMagicError / (2,_,_) OversizedPayloadError /\n'
+        '    (3,_,_) BadChecksumError / (9,_,_) anything else -/\n'
+        f'noncomputable def recvGrid : List (Nat × Nat × List UInt8 × List (Nat × List UInt8 × List UInt8)) := [\n  {grid}]\n'
+        '/-- (magic, command, payload, code, bytes): `BitcoinFramer(magic=magic).frame((command,\n'
+        '    payload))` returned `bytes` (code 0) / raised ValueError (1) / struct.error (2) /\n'
+        '    something else (3); consecutive rows of one magic were calls on the same instance -/\n'
+        f'noncomputable def frameTable : List (List UInt8 × List UInt8 × List UInt8 × Nat × List UInt8) := [\n  {frames}]\n'
+        '/-- (n, code, bytes): `frame((b"p", payload))` for a payload whose `len()` is n (and whose\n'
+        '    content is empty); empty when frame() does not consult `len()` -/\n'
+        f'noncomputable def packProbe : List (Nat × Nat × List UInt8) := [\n  {packs}]\n'
+        '/-- how many further magic/size errors a session counted (on a stream of 40 of them) before\n'
+        '    a loss reported at once / 2.5 ms after `close()` reached its read loop (measured: the\n'
+        '    property text says nothing about this timing); gNever stands for "all of them" -/\n'
+        f'def gSoon : Nat := {f["g_soon"]}\n'
+        f'def gLate : Nat := {f["g_late"]}\n'
+        f'def gNever : Nat := {f["g_never"]}\n'
+        '/-- (g, outcomes of the framer alone on the stream, `session.errors`, transport closing?,\n'
+        '    messages that reached `handle_message`) for a `MessageSession` on a fake transport that\n'
+        '    reports the loss at once (g = gSoon), 2.5 ms after `close()` (g = gLate) or not before\n'
+        '    `abort()` (g = gNever) -/\n'
+        'noncomputable def sessTable : List (Nat × List (Nat × List UInt8 × List UInt8) × Nat × Bool ×\n'
+        f'    List (List UInt8 × List UInt8)) := [\n  {sess}]\n'
+        '/-- `cost` attributes of BadMagicError, OversizedPayloadError, BadChecksumError\n'
+        '    (parameters; no theorem depends on their values) -/\n'
         f'def costs : List Nat := {cost_list}\n'
         f'def defaultFramerIsBitcoin : Bool := {_bool(f["default_framer"] == "BitcoinFramer")}\n'
         'end Aiorpcx.Facts.C07\n')
